@@ -63,6 +63,7 @@ def write(pid, tier, seed, prop, us, oc, coq, violations, known_lines, wall, ext
             "known_findings_reported": sorted(set(known_lines)),
             "timing": getattr(oc, "times", {}), "coq_s": coq.get("coq_s"),
             "vm_compute_cross_check": getattr(oc, "vm", None),
+            "anchored_statement_coverage": {f: (f"{a}/{b} ({100 * a // b}%)" if b else "n/a") for f, (a, b) in getattr(oc, "anchor_coverage", {}).items() if isinstance(getattr(oc, "anchor_coverage", {}).get(f), list)},
             "prtpy_under_test": os.environ.get("PRTPY_REPO", "/repo"),
             "explanation": getattr(prop, "EXPLANATION", ""),
         },
